@@ -168,6 +168,8 @@ def der_sig(r, s, form="strict"):
     if form == "strict":
         body = b"\x02" + bytes([len(rb)]) + rb + b"\x02" + bytes([len(sb)]) + sb
         return b"\x30" + bytes([len(body)]) + body
+    if form == "pad10":                      # ten extra leading zeros on both: a signature blob longer than 75 bytes
+        rb, sb = b"\x00" * 10 + rb, b"\x00" * 10 + sb
     if form == "padded_r":                   # extra leading zero
         rb = b"\x00" + rb
     elif form == "padded_s":
@@ -205,7 +207,7 @@ def der_sig(r, s, form="strict"):
     return b"\x30" + bytes([len(body)]) + body
 
 
-DER_FORMS = ["strict", "padded_r", "padded_s", "neg_r", "neg_s", "longlen", "longlen_int", "trailing", "trailing_in_seq", "seqlen_short",
+DER_FORMS = ["strict", "pad10", "padded_r", "padded_s", "neg_r", "neg_s", "longlen", "longlen_int", "trailing", "trailing_in_seq", "seqlen_short",
              "seqlen_long", "truncated", "trunc2", "trunc3", "wrongtag", "inttag"]
 
 
